@@ -17,7 +17,7 @@ def build_lean(targets=("FinProtoc", "fpdriver")):
 def run_ops(reqs, timeout=1200):
     payload = "".join(json.dumps(r) + "\n" for r in reqs)
     p = subprocess.run([FPDRIVER], input=payload, capture_output=True, text=True, timeout=timeout)
-    lines = p.stdout.splitlines()
+    lines = [l for l in p.stdout.split("\n") if l]
     out = []
     for l in lines:
         try:
